@@ -130,6 +130,8 @@ class TypeParser:
             if bname == 'DefaultOr':
                 return union(P(elts[0]), DEFAULT_T)
             if bname == 'Literal':
+                if len(elts) == 1 and isinstance(elts[0], ast.Constant):
+                    return ('const', elts[0].value)      # Literal[c]: the concrete constant c (witness contracts)
                 return ('opaque', 'Literal')
             if bname in ('type', 'Type'):
                 return ('opaque', 'type')
